@@ -51,6 +51,11 @@ def parse (toks : List String) : Option Op :=
     let r : SideChain := { addr := ← addr? a, chainId := ← nat? id, router := ← nat? router, name := ← Hex.ofHex name, btw := ← nat? btw,
                            ccmc := ← Hex.ofHex ccmc, extra := ← Hex.ofHex extra }
     if k == "screg" then pure (.screg (← signers? sg) r) else if k == "scupd" then pure (.scupd (← signers? sg) r) else none
+  | ["deposit", sg, rel, chain, h, extra, id, ccid] => do
+    let _ ← nat? h
+    let _ ← Hex.ofHex extra
+    let c ← if ccid == "none" then some none else (Hex.ofHex ccid).map some
+    pure (.deposit (← signers? sg) (← addr? rel) (← nat? chain) (← Hex.ofHex id) c)
   | ["admit", sg] => do pure (.submit (← signers? sg))
   | ["refresh", o] => if o == "-" then some (.refresh none) else do pure (.refresh (some (← addr? o)))
   | ["restart"] => some .restart
@@ -137,6 +142,7 @@ def dump (s : State) : String :=
     ++ ";svaid=" ++ optNat s.svApplyId ++ ";svrid=" ++ optNat s.svRemoveId
     ++ ";sig=" ++ mapByHex s.sigs (fun p => bool p.1 ++ ":" ++ joinWith "," (sortBy (fun a b => decide (a ≤ b)) (p.2.map (fun e => Hex.toHex e.1 ++ "=" ++ hexs e.2))))
     ++ ";vote=" ++ mapByHex s.votes (fun p => bool p.1 ++ ":" ++ sortedAddrs p.2)
+    ++ ";done=[" ++ joinWith "," (sortBy (fun a b => decide (a ≤ b)) (s.doneTx.map (fun p => toString p.1 ++ "/" ++ hexs p.2))) ++ "]"
     ++ ";perm=[" ++ sortedAddrs s.permitted ++ "]"
 
 def digest (s : State) : String := Hex.toHex ((Sha256.sha256 (dump s).toUTF8.toList).take 6)
